@@ -26,8 +26,8 @@ def check(rep: Report, repo: Optional[Repo] = None) -> None:
 
 
 MANIFEST = dict(
-    technique='own .fj front end: link closure, extents, index-order of the rep-based IO macros',
-    level_text='Static, PARTIAL: closure and extents as for C04; the raw IO macros documented lsb-first walk bits/bytes in ascending order '
+    technique='own .fj front end: link closure, extents, index-order of the rep-based IO macros; scratch / alias / jump-word typestate / constant-width rules',
+    level_text='Also: scratch initialisation, alias hazards, jump-word give-back on every path (typestate over the macro CFG), constant widths. Static, PARTIAL: closure and extents as for C04; the raw IO macros documented lsb-first walk bits/bytes in ascending order '
                '(the order C17 pins for the devices). It does NOT decide numeric conversions. One documentation/behaviour mismatch '
                '(bit.input n) is a recorded finding.',
     level_note='Trusted: fjfront. The value-level body of C09 needs execution and is outside this technique family.',
